@@ -61,4 +61,7 @@ pub enum RemoveSubscriptionError {
 pub enum DeleteError {
     #[error("The topic is closed")]
     Closed,
+
+    #[error("The topic does not exist")]
+    DoesNotExist,
 }
